@@ -8,6 +8,7 @@ CONSTANTS
   Wipeouts = FALSE
   Collide = FALSE
   Times = {1}
+  KeepGoing = {FALSE}
   Design = "atomic"
 INIT TraceInit
 NEXT TraceNext
